@@ -17,9 +17,11 @@ PLAIN_CONTENT = {"README.md": b"# Demo\n\nSome text.\n", "README.rst": b"Demo\n=
 
 def unrelated(name, final_nl):
     if name.endswith(".toml"):
-        text = '[project]\nname = "demo"\ndescription = "about versions"\n\n[tool.black]\nline-length = 100'
+        # a static project version, double-quoted in one kind and single-quoted (legal TOML) in the other
+        vline = 'version = "0.3.1"' if final_nl else "version = '0.3.1'"
+        text = '[project]\nname = "demo"\n%s\ndescription = "about versions"\n\n[tool.black]\nline-length = 100' % vline
     else:
-        text = "[metadata]\nname = demo\n\n[flake8]\nmax-line-length = 100"
+        text = "[metadata]\nname = demo\nversion = 0.3.1\n\n[flake8]\nmax-line-length = 100"
     return (text + ("\n" if final_nl else "")).encode()
 
 
